@@ -45,7 +45,7 @@ func genSA(rt *rapid.T) SAScript {
 		s.Chunks = rapid.SliceOfN(rapid.IntRange(1, 120), 1, 6).Draw(rt, "chunks")
 	}
 	for i, n := 0, rapid.IntRange(0, 4).Draw(rt, "nrec"); i < n; i++ {
-		r := Rec{Kind: rapid.SampledFrom([]string{"ok", "ok", "ok", "neterr", "502", "empty"}).Draw(rt, "rkind")}
+		r := Rec{Kind: rapid.SampledFrom([]string{"ok", "ok", "ok", "neterr", "502", "500", "504", "429", "empty"}).Draw(rt, "rkind")}
 		if r.Kind == "ok" {
 			r.CutKind = rapid.SampledFrom([]string{"err", "eof"}).Draw(rt, "rcutkind")
 			r.CutAt = rapid.IntRange(0, 2000).Draw(rt, "rcutat")
@@ -107,8 +107,9 @@ func (f *saFake) ServeHTTP(w http.ResponseWriter, r *http.Request) {
 	evs := f.evs
 	f.mu.Unlock()
 	switch rec.Kind {
-	case "502":
-		http.Error(w, "bad gateway", 502)
+	case "502", "500", "504", "429": // the statuses the SDK documents as transient
+		code, _ := strconv.Atoi(rec.Kind)
+		http.Error(w, "try again", code)
 		return
 	case "empty":
 		w.Header().Set("Content-Type", "text/event-stream")
@@ -326,7 +327,7 @@ func runSAInBubble(s SAScript) (res vt.Result) {
 	hopeless := false
 	consecutive := 0
 	for _, r := range s.Reconnects {
-		if r.Kind == "neterr" || r.Kind == "502" || r.Kind == "empty" {
+		if r.Kind == "neterr" || r.Kind == "502" || r.Kind == "500" || r.Kind == "504" || r.Kind == "429" || r.Kind == "empty" {
 			consecutive++
 			if consecutive >= 4 {
 				hopeless = true
